@@ -3,7 +3,7 @@ import session, slicegrid
 
 ID = 'C05'
 PROPERTY_FILE = 'Autobean/Properties/C05.lean'
-LEAN_TARGETS = ['Autobean.Properties.C05']
+LEAN_TARGETS = ['Autobean.Properties.C05', 'Autobean.Obligations.Schema']
 RULE = ('random edit histories (token, optional, required, repeated, filtered-view, mapping, spacing, comment-claim, '
         'deep-copy-and-insert, pop-and-reinsert, arithmetic, cost setters) on generated ledgers and on the parseable '
         'string literals of the repository tests, both attribution modes; after every operation the structural invariant '
